@@ -36,7 +36,9 @@ MANIFEST = {
             "taken as any non-decreasing sequence), util::stream (sort, chains, RewindableStream), threads, MergeVocab's hash order and float32/long-double rounding "
             "are tied only through the final ARPA output of bin/interpolate compared "
             "with the compiled Lean driver on seeded tuples of lmplz --intermediate models (tolerance 1e-5), and the real "
-            "bounded_sequence_encoding header in-process (ASan/UBSan).",
+            "bounded_sequence_encoding header in-process (ASan/UBSan). String lifetime in MergeVocab (StringPiece into a "
+            "FilePiece window) is outside the model; it is exercised by the bigvocab stream (two components over >= 140k "
+            "shared word types, .vocab of several MB) against the Python oracle.",
     "note": "Trusted: Lean kernel + propext/Classical.choice/Quot.sound; statements in lean/Properties/C13.lean; Mathlib's "
             "Real.rpow/logb; the Python comparator/generators (checks/C13.py, checks/interpgen.py), lean/Driver/C13.lean (Float "
             "10^x / log10), harness/c13_bse.cc; lmplz as producer of the inputs. Hypotheses of the theorems (prefix/suffix "
@@ -691,6 +693,92 @@ def bse_stream(ctx, n_cases):
     return [], found
 
 
+# ------------------------------------------------------------------------------------ stream `bigvocab`
+def bigvocab_case(ctx, bins, wd, idx):
+    """Two order-2 components over (almost) the same >= 140k word types with long-ish spellings: every <base>.vocab is
+    1.8-3 MB, several FilePiece windows, so MergeVocab runs across window shifts with the word at the shift shared
+    between the components.  Too large for the list-based Lean driver: tool vs the independent Python oracle only
+    (union vocabulary = distinct words, no duplicate n-gram, header counts, n-gram set = union, defining formula and
+    normalisation on a sample of contexts over the WHOLE vocabulary).  Returns True if a violation was reported."""
+    import time
+    lmplz, interp = bins
+    rng = ctx.rng
+    t0 = time.time()
+    shutil.rmtree(wd, ignore_errors=True)
+    os.makedirs(wd)
+    n = rng.choice([140000, 150000, 165000])
+    pad = rng.choice([7, 11, 15])
+    words = ["w%07d_%s" % (i, "abcdefghij"[i % 10] * (i % pad)) for i in range(n)]
+    texts = []
+    for name in "AB":
+        ws = words + ["only%s%d" % (name, i) for i in range(rng.choice([0, 30]))]
+        rng.shuffle(ws)
+        texts.append("\n".join(" ".join(ws[i:i + 10]) for i in range(0, len(ws), 10)) + "\n")
+    replay = {"stream": "bigvocab", "n_words": n, "pad": pad, "seed_note": "regenerate with the same VERIF_SEED"}
+    models = []
+    for name, text in zip("AB", texts):
+        base = os.path.join(wd, name)
+        rc, o, e = sh([lmplz, "-o", "2", "--intermediate", base, "-S", "200M", "--discount_fallback"],
+                      timeout=300, input=text.encode("utf-8"))
+        if rc != 0:
+            log("  bigvocab: lmplz failed (%s), instance skipped" % rc)
+            return False
+        models.append(G.read_intermediate(base))
+    weights = rng.choice([[0.5, 0.5], [0.2, 0.8], [1.3, -0.3]])
+    vbytes = max(os.path.getsize(m["base"] + ".vocab") for m in models)
+    ctx.hist("bigvocab.vocab_MB", round(vbytes / 1e6, 1))
+    cmd = [interp, "-m"] + [m["base"] for m in models] + ["-w"] + [repr(w) for w in weights] + ["-T", os.path.join(wd, "t_")]
+    rc, out, err = sh(cmd, timeout=300)
+    replay["cmd"] = " ".join(cmd)
+    ctx.count(("bigvocab", idx, n, pad), nontrivial=True)
+    if rc != 0:
+        ctx.violation("interpolate did not terminate successfully on a large shared vocabulary (%d words, .vocab %.1f MB): "
+                      "rc=%s %s" % (n, vbytes / 1e6, rc, (err.strip().splitlines() or ["?"])[-1][:200]), replay)
+        return True
+    try:
+        counts, grams = G.parse_arpa(out)      # raises on duplicate n-grams and on header counts != entries
+    except ValueError as ex:
+        ctx.violation("large shared vocabulary (%d words): malformed ARPA: %s" % (n, ex), replay)
+        return True
+    comp_grams = [G.model_grams(m) for m in models]
+    union = set(comp_grams[0]) | set(comp_grams[1])
+    if set(grams) != union:
+        d = sorted(set(grams) ^ union)[:4]
+        ctx.violation("large shared vocabulary (%d words): output n-gram set is not the union of the inputs "
+                      "(%d vs %d n-grams), e.g. %r" % (n, len(grams), len(union), d), replay)
+        return True
+    uv = [g[0] for g in grams if len(g) == 1]
+    distinct = set(models[0]["vocab"]) | set(models[1]["vocab"])
+    if len(uv) != len(distinct) or set(uv) != distinct:
+        ctx.violation("large shared vocabulary: %d unigrams for %d distinct words" % (len(uv), len(distinct)), replay)
+        return True
+    vocab_nobos = [w for w in uv if w != "<s>"]
+    lambdas = [G.f32(G.f32bits(w)) for w in weights]
+    comps_py = list(zip(comp_grams, [2, 2]))
+    some = rng.sample(words, 2)
+    ctxs = [(), ("<s>",), (some[0],), (some[1],)] + ([("onlyA0",)] if ("onlyA0",) in grams else [])
+    worst = 0.0
+    for c in ctxs[:(4 if ctx.tier == "quick" else 5)]:
+        pyf, _ = G.formula(comps_py, lambdas, vocab_nobos, c)
+        tot = 0.0
+        for w in vocab_nobos:
+            impl = G.arpa_score(grams, c, w)
+            tot += 10.0 ** impl
+            d = abs(impl - pyf[w])
+            if not d <= TOL:
+                ctx.violation("large shared vocabulary: log p(%s | %s): interpolate output %r, defining formula (Python "
+                              "oracle) %r" % (w, " ".join(c), impl, pyf[w]), replay)
+                return True
+            worst = max(worst, d)
+        ctx.count(None, n=len(vocab_nobos))
+        if not abs(tot - 1.0) <= 1e-3:
+            ctx.violation("large shared vocabulary: context %r sums to %r" % (" ".join(c), tot), replay)
+            return True
+    ctx.notes["bigvocab_max_abs_error"] = max(ctx.notes.get("bigvocab_max_abs_error", 0.0), worst)
+    ctx.notes["bigvocab_seconds"] = round(ctx.notes.get("bigvocab_seconds", 0.0) + time.time() - t0, 1)
+    return False
+
+
 def build_tools():
     """repo.build with retries: the shared build cache is pruned by concurrent checks of other trees, which can
     delete a build directory while ninja is still writing into it."""
@@ -721,9 +809,11 @@ def run(ctx):
     found = found_bse
     try:
         quick = ctx.tier == "quick"
-        n = 24 if quick else 300
+        n = 20 if quick else 300
         cap_ctx = 120 if quick else 400
         # fixed coverage first: every kind once, then random kinds
+        for bi in range(1 if quick else 4):
+            found |= bigvocab_case(ctx, bins, os.path.join(wd, "big"), bi)
         kinds = ["single", "disjoint", "deep", "same-order", "same-corpus-mixed", "nested-mixed", "diff-mixed",
                  "disjoint", "deep", "same-order", "disjoint"]
         if not quick:
